@@ -88,7 +88,7 @@ func editTree(t *rapid.T, v V, depth int, cfg TreeCfg) (V, string) {
 		}
 		return VFloat(g), "value_change" + d
 	case KString:
-		if drawInt(t, 0, 3, "kind") == 0 {
+		if oneIn(t, 4, "kind") {
 			if i, err := strconv.Atoi(v.S); err == nil {
 				return VInt(i), "kind_change_string_int" + d
 			}
@@ -187,9 +187,9 @@ func GenC07(t *rapid.T) *C07Case {
 	a := GenRoot(t, cfg)
 	b, rel := deriveEq(t, a, cfg)
 	c := &C07Case{A: a, B: b, Rel: rel}
-	if drawInt(t, 0, 2, "triple") == 0 {
+	if oneIn(t, 3, "triple") {
 		cc, rel2 := deriveEq(t, b, cfg)
-		if drawInt(t, 0, 2, "tcopy") == 0 {
+		if oneIn(t, 3, "tcopy") {
 			cc, rel2 = b.Clone(), "copy"
 		}
 		c.C = &cc
